@@ -297,6 +297,10 @@ func (d *Data) streamRawBlock(ctx *datastore.VersionedCtx, w http.ResponseWriter
 	if err != nil {
 		return err
 	}
+	if block == nil {
+		// no block stored at this coordinate so all voxels are background
+		block = labels.MakeSolidBlock(0, d.BlockSize().(dvid.Point3d))
+	}
 	if !supervoxels {
 		mapping, err := getMapping(d, ctx.VersionID())
 		if err != nil {
